@@ -231,6 +231,8 @@ def solve (L : NLits α) (S : Setup α) (ode jac : Nat → α → Array α → A
     let maxH := Num.abs (xend - x)
     let guess := if Num.abs guess > maxH then maxH * direction else guess
     hAbs := Num.abs guess
+  -- a start below the resolution of the time axis is raised to ten units in the last place of x
+  hAbs := Num.fmax hAbs (L.ten * L.eps * Num.abs x)
   hAbs := Num.fmin hAbs (Num.fmax hmax L.minPositive)
   let mut currentH := hAbs
   -- difference arrays
